@@ -50,6 +50,9 @@ pub struct Drain<C: Col> {
     pub store_cap: usize,
     /// the bounding box the target REPORTS (it logs whatever it receives)
     pub bbox: Rectangle,
+    /// > 0: the first `skip` colours of every stream are skipped with ONE call of nth() (a driver that discards the rows
+    /// above its window); the call record then holds "skip" and the colours from that position on
+    pub skip: usize,
     _c: PhantomData<C>,
 }
 pub const HARD_CAP: usize = 1 << 20;
@@ -58,7 +61,7 @@ pub fn call_json(m: &str, area: &Rectangle, n: usize, over: bool, cs: Vec<i32>, 
 }
 impl<C: Col> Drain<C> {
     pub fn new() -> Self {
-        Drain { calls: vec![], store_cap: 1 << 17, bbox: Rectangle::new(Point::new(-(1 << 20), -(1 << 20)), Size::new(1 << 21, 1 << 21)), _c: PhantomData }
+        Drain { calls: vec![], store_cap: 1 << 17, bbox: Rectangle::new(Point::new(-(1 << 20), -(1 << 20)), Size::new(1 << 21, 1 << 21)), skip: 0, _c: PhantomData }
     }
 }
 impl<C: Col> Dimensions for Drain<C> {
@@ -80,6 +83,24 @@ impl<C: Col> DrawTarget for Drain<C> {
         let mut n = 0usize;
         let mut over = false;
         let mut it = colors.into_iter();
+        if self.skip > 0 {
+            // nth(skip - 1) discards `skip` colours; everything after that is pulled with next()
+            let _ = it.nth(self.skip - 1);
+            for c in it {
+                if n == HARD_CAP {
+                    over = true;
+                    break;
+                }
+                if cs.len() < keep {
+                    cs.push(ci(c));
+                }
+                n += 1;
+            }
+            let mut call = call_json("fc", area, n, over, cs, vec![], 0);
+            call["skip"] = json!(self.skip);
+            self.calls.push(call);
+            return Ok(());
+        }
         // How a driver consumes the stream is its own business: pull the first `pre` colours one by one with next()
         // (nothing, half a row, one row, two rows - rotating from call to call - or everything) and take the rest by
         // internal iteration (for_each = fold), as an address-window streaming driver does.  Large areas are pulled
